@@ -411,3 +411,96 @@ func totalLen(p [][]concPayload) (n int) {
 	}
 	return
 }
+
+// TestC13Big — C13 part 2 on a state that is larger than what one complete-state payload holds. The durable sets encode a
+// random sample of at most 50 000 entries, so "the complete state" queued on a link is NOT a superset of a relayed delta
+// queued next to it: whatever the sender's Merge does, the bytes finally sent must still carry every update of the delta.
+// One real broker is loaded with 80 000 ban entries (one merged payload), then a payload with 100 new bans arrives through
+// OnGossip; the returned delta and the periodic Gossip() payload are combined exactly as mesh's gossipSender does
+// (pending = pending.Merge(new)), in both orders, encoded, decoded, and searched for the 100 updates.
+func TestC13Big(t *testing.T) {
+	rec := vk.New("C13", "bigstate")
+	defer rec.Finish(t)
+	rec.Rule("case = one real broker whose replicated state holds 80 000 bans (more than the 50 000 entries one complete-state payload samples); a payload with 100 new bans is merged through OnGossip and the returned delta is combined with the periodic Gossip() payload by pending.Merge(new) in one of the two orders; the encoded result is decoded and must carry all 100 new updates with their times; " +
+		"non-trivial = every case; distinct = (order, seed)")
+	shard, _ := vk.Shard()
+	n := vk.N(2, 12)
+	for ci := 0; ci < n; ci++ {
+		if !vk.Mine(ci) {
+			continue
+		}
+		old := crdt.Now
+		crdt.Now = func() int64 { return atomic.LoadInt64(&concClock) }
+		func() {
+			defer func() { crdt.Now = old }()
+			atomic.StoreInt64(&concClock, 5000)
+			b, err := brokerlab.NewBroker(brokerlab.Opts{Node: 1})
+			if err != nil {
+				rec.Inconclusive(err.Error())
+				return
+			}
+			defer b.Close()
+			sw := b.Svc.VerifSwarm()
+			big := event.NewState("")
+			for i := 0; i < 80000; i++ {
+				bn := event.Ban(fmt.Sprintf("old-%d-%06d", ci, i))
+				big.Add(&bn)
+			}
+			if _, err := sw.OnGossip(big.Encode()[0]); err != nil {
+				rec.Inconclusive("preload: " + err.Error())
+				return
+			}
+			atomic.StoreInt64(&concClock, 6000+int64(ci))
+			fresh := event.NewState("")
+			var keys []string
+			for i := 0; i < 100; i++ {
+				k := fmt.Sprintf("new-%d-%d-%03d", shard, ci, i)
+				keys = append(keys, k)
+				bn := event.Ban(k)
+				fresh.Add(&bn)
+			}
+			delta, err := sw.OnGossip(fresh.Encode()[0])
+			if err != nil || delta == nil {
+				rec.Violation(ci, "bigstate/delta-missing", fmt.Sprintf("OnGossip of 100 new bans returned delta=%v err=%v", delta, err), nil)
+				return
+			}
+			full := sw.Gossip()
+			order := "delta-then-complete-state"
+			var pending mesh.GossipData
+			if ci%2 == 0 {
+				pending = delta.Merge(full)
+			} else {
+				order = "complete-state-then-delta"
+				pending = full.Merge(delta)
+			}
+			got := map[string][2]int64{}
+			total := 0
+			if pending != nil {
+				for _, buf := range pending.Encode() {
+					if st, err := event.DecodeState(buf); err == nil {
+						for k, v := range st.VerifEntries(event.VerifBans) {
+							got[k] = v
+							total++
+						}
+					}
+				}
+			}
+			missing := 0
+			for _, k := range keys {
+				if v, ok := got[k]; !ok || v[0] != 6000+int64(ci) {
+					missing++
+				}
+			}
+			rec.Add("sent_entries_decoded", int64(total))
+			rec.Add("delta_updates_searched", 100)
+			rec.Case(vk.Hash("bigstate", shard, ci, order), true)
+			if missing > 0 {
+				rec.Violation(ci, "coalescing-lost-update/complete-state-larger-than-its-sample", fmt.Sprintf("a delta with 100 new bans and the complete state (80 100 entries, of which a payload samples 50 000) were queued on one link (%s): the bytes finally sent (%d entries) lack %d of the 100 new updates", order, total, missing),
+					map[string]interface{}{"order": order, "state_entries": 80100, "sent_entries": total, "missing": missing})
+			}
+			if rec.WantSample() {
+				rec.Sample(map[string]interface{}{"order": order, "sent_entries": total, "missing_of_100": missing})
+			}
+		}()
+	}
+}
